@@ -176,7 +176,10 @@ class Worker:
             saved = (collections.Counter(ctx.labels), ctx.extra_evals, ctx.extra_nontrivial)
         self.hooks.reset_case(self.numpoly)
         fails = []
-        signal.alarm(int(os.environ.get("VERIF_CASE_TIMEOUT", "30" if self.tier == "quick" else "120")))
+        # repeating timer: an exception raised by the handler inside a destructor / callback is
+        # swallowed by the interpreter, so the watchdog must be able to bark again
+        signal.setitimer(signal.ITIMER_REAL,
+                         float(os.environ.get("VERIF_CASE_TIMEOUT", "30" if self.tier == "quick" else "120")), 5.0)
         try:
             fails = list(self.mod.check_case(case, ctx) or [])
         except Inconclusive:
@@ -205,7 +208,7 @@ class Worker:
                 return []
             fails = [Failure(exc_bucket("escape", err), tb[-1200:])]
         finally:
-            signal.alarm(0)
+            signal.setitimer(signal.ITIMER_REAL, 0)
             self.hooks.reset_case(self.numpoly)
         if ctx.discard:
             self.discarded[ctx.discard] += 1
